@@ -26,17 +26,6 @@ def classify(prop, f, tr, trace_text):
                 deleted_while_away = True
         if any(v > 1 for v in setups.values()) and deleted_while_away and sig == 'entity-sets-differ':
             return 'S11-reconnect-keeps-deleted'
-    if sig == 'skin-differs':
-        # S13: a SkinnedMesh reached a joining client through the snapshot (mapper may precede its joints' spawns)
-        setup_after_skin = False
-        seen_skin = False
-        for p, w in ops:
-            if w[0] == 'skin':
-                seen_skin = True
-            if w[0] == 'setup' and seen_skin:
-                setup_after_skin = True
-        if setup_after_skin:
-            return 'S13-snapshot-mapper-before-joints'
     if sig in ('asset-content-differs', 'asset-missing'):
         m = re.search(r'asset kind (\d+) id (\d+)', f['what'])
         key = (m.group(1), m.group(2)) if m else None
